@@ -14,7 +14,7 @@ open YashModel.Generated.RedirConsts
     OR it named something that is not a regular file and no file of the world changed (nothing is ever
     truncated) -/
 theorem noclobber_redirection_concrete (w : World) (t : FdTable) (fd : Fd) (path : Nat) (s : SavedFd)
-    (hn : w.noclobber = true) (hp : path ≠ pathEnotdir) (hlen : path < w.files.length)
+    (hn : w.noclobber = true) (hp : path ≠ pathEnotdir) (hp2 : path ≠ pathSlash) (hlen : path < w.files.length)
     (h : (perform worldOracle w t ⟨fd, .file .fileOut path⟩).r = .ok s) :
     (perform worldOracle w t ⟨fd, .file .fileOut path⟩).t.get fd = some ⟨w.ofds.length, false⟩ ∧
     ofdAt (perform worldOracle w t ⟨fd, .file .fileOut path⟩).w w.ofds.length = ⟨path, false, true, false, 0⟩ ∧
@@ -22,21 +22,21 @@ theorem noclobber_redirection_concrete (w : World) (t : FdTable) (fd : Fd) (path
         fileAt (perform worldOracle w t ⟨fd, .file .fileOut path⟩).w path = ⟨true, .reg, [], false⟩) ∨
      ((fileAt w path).present = true ∧ (fileAt w path).kind ≠ .reg ∧
         (perform worldOracle w t ⟨fd, .file .fileOut path⟩).w.files = w.files)) :=
-  noclobber_redirection_concrete' w t fd path s hn hp hlen h
+  noclobber_redirection_concrete' w t fd path s hn hp hp2 hlen h
 
 /-- ★ … hence on an existing regular file `>` under `noclobber` never succeeds — whatever the table, the
     limit and the allocation failures — and the descriptor table is left as it was; `>|` is not affected
     by the option at all (it is `file_redirection_concrete` with `op = .fileClobber`, whose hypothesis
     about `noclobber` is vacuous) -/
 theorem noclobber_refuses_regular (w : World) (t : FdTable) (fd : Fd) (path : Nat)
-    (hn : w.noclobber = true) (hp : path ≠ pathEnotdir) (hlen : path < w.files.length)
+    (hn : w.noclobber = true) (hp : path ≠ pathEnotdir) (hp2 : path ≠ pathSlash) (hlen : path < w.files.length)
     (hpres : (fileAt w path).present = true) (hreg : (fileAt w path).kind = .reg) :
     (∃ e, (perform worldOracle w t ⟨fd, .file .fileOut path⟩).r = .error e) ∧
     (perform worldOracle w t ⟨fd, .file .fileOut path⟩).t.limit = t.limit ∧
     ∀ fd', (perform worldOracle w t ⟨fd, .file .fileOut path⟩).t.get fd' = t.get fd' := by
   cases hr : (perform worldOracle w t ⟨fd, .file .fileOut path⟩).r with
   | ok s =>
-    obtain ⟨_, _, h3⟩ := noclobber_redirection_concrete' w t fd path s hn hp hlen hr
+    obtain ⟨_, _, h3⟩ := noclobber_redirection_concrete' w t fd path s hn hp hp2 hlen hr
     rcases h3 with ⟨hm, _⟩ | ⟨_, hk, _⟩
     · rw [hpres] at hm; cases hm
     · exact absurd hreg hk
@@ -265,6 +265,33 @@ theorem failed_dup2_after_open_has_truncated :
     let r := perform worldOracle (stdWorld false) t ⟨12, .file .fileOut 3⟩
     (match r.r with | .error (.fdNotOverwritten 12 .EBADF) => true | _ => false) = true ∧
     (fileAt r.w 3).content = [] ∧ (fileAt (stdWorld false) 3).content = [1, 2] ∧ r.t.openFds = t.openFds := by decide
+
+/-! ### a pathname with a trailing slash -/
+
+/-- ★ `resolve_file` on a pathname with a trailing slash whose last component does not exist: EISDIR when
+    asked to create it (`>q/`, `>|q/`, `>>q/`, `<>q/`, and the exclusive creation of `noclobber`), ENOENT
+    otherwise (`<q/`) — never a descriptor, never a change of the world; hence no redirection to it
+    succeeds, whatever the operator, the table, the limit and the `noclobber` option -/
+theorem trailing_slash_never_opens (w : World) (t : FdTable) (fd : Fd) (op : FileOp) (args : OpenArgs) :
+    w.resolve ⟨pathSlash, args⟩ = (w, .error (if args.create then .EISDIR else .ENOENT)) ∧
+    ∃ e, (perform worldOracle w t ⟨fd, .file op pathSlash⟩).r = .error e := by
+  refine ⟨by simp [World.resolve, pathSlash, pathEnotdir], ?_⟩
+  cases hr : (perform worldOracle w t ⟨fd, .file op pathSlash⟩).r with
+  | error e => exact ⟨e, rfl⟩
+  | ok s =>
+    obtain ⟨w0, w1, a, ofd, _, _, hres, _, _, _⟩ :=
+      perform_file_resolved worldOracle_stable w t fd op pathSlash s (.file op pathSlash) (.inl rfl) hr
+    have : w1.resolve ⟨pathSlash, a⟩ = (w1, .error (if a.create then .EISDIR else .ENOENT)) := by
+      simp [World.resolve, pathSlash, pathEnotdir]
+    rw [show worldOracle.resolve w1 ⟨pathSlash, a⟩ = w1.resolve ⟨pathSlash, a⟩ from rfl, this] at hres
+    exact absurd (congrArg Prod.snd hres) (by simp)
+
+-- the error classes: `>q/` EISDIR, `<q/` ENOENT, `>q/` under noclobber EISDIR (from the exclusive open)
+example :
+    (match (perform worldOracle (stdWorld false) stdTable ⟨1, .file .fileOut 12⟩).r with | .error (.openFile .EISDIR) => true | _ => false) = true ∧
+    (match (perform worldOracle (stdWorld false) stdTable ⟨0, .file .fileIn 12⟩).r with | .error (.openFile .ENOENT) => true | _ => false) = true ∧
+    (match (perform worldOracle (stdWorld true) stdTable ⟨1, .file .fileOut 12⟩).r with | .error (.openFile .EISDIR) => true | _ => false) = true := by
+  decide
 
 /-! ### exit status of a command substitution in an operand -/
 
